@@ -27,6 +27,7 @@ pub struct Unit {
     pub chains: Vec<(String, String, String)>, // method `b` called on the result of method `a` is renamed
     pub defines: Vec<(String, String)>,  // `${NAME}` placeholders in spec files
     pub broadcasts: Vec<String>,      // broadcast groups made available at the entry of every extracted body (ghost only)
+    pub guards: BTreeSet<String>,     // `guard a b`: methods that return a lock guard (rule G6)
     pub eagersync: BTreeSet<String>,  // eager names whose un-awaited call is a synchronous call of a same-named function (not a future value)
     pub onrecv: Vec<(String, String, String)>, // method `m` called on the local `x` is renamed (`on x m => n`)
     pub panic_forbidden: bool,        // `panics forbidden`: a panic in this unit's functions is an obligation failure, not a path end
@@ -50,6 +51,7 @@ impl Unit {
                 "specref" => u.specrefs.extend(words()),
                 "eager" => { u.eager.extend(words()); u.traced.extend(words()); }
                 "traced" => u.traced.extend(words()),
+                "guard" => { u.guards.extend(words()); }
                 "eagersync" => { u.eagersync.extend(words()); u.eager.extend(words()); u.traced.extend(words()); }
                 "ufcs" => u.ufcs.extend(words()),
                 "purepath" => u.pure_paths.extend(words()),
